@@ -313,6 +313,12 @@ def is_internable(x) -> bool:
 def callable_name(fn) -> str:
   if isinstance(fn, functools.partial):
     return 'partial(' + callable_name(fn.func) + ')'
+  import inspect as _inspect
+  if _inspect.ismethod(fn) and isinstance(fn.__self__, type):
+    # a classmethod reached through a subclass is a different callable than through its base
+    return f'{fn.__self__.__qualname__}.{fn.__name__}'
+  if getattr(fn, '__module__', '') in ('layers', 'harness.c13lib.layers'):
+    return f'{fn.__module__}:{fn.__qualname__}'       # same name in two modules
   return getattr(fn, '__qualname__', None) or getattr(fn, '__name__', None) or type(fn).__name__
 
 
